@@ -58,7 +58,7 @@ def parse_dot(src):
 def observe_graph(chain, names_html):
     """chain: the real dictionary; returns the obs record of Viewer.tla"""
     from decaylanguage import DecayChainViewer
-    v = DecayChainViewer(copy.deepcopy(chain))
+    v = DecayChainViewer(chain)          # the caller's dictionary itself: drawing must leave it usable (see add_view)
     src = v.to_string()
     nodes, edges, other = parse_dot(src)
     back = {h: n for n, h in names_html.items()}
@@ -152,9 +152,16 @@ def build_session(args):
         nh = {n: html_of(n) for n in names}
         if len(set(nh.values())) != len(nh):
             return                            # two names with the same HTML spelling cannot be told apart in the cells
+        pristine = copy.deepcopy(chain)
         obs, dot = observe_graph(chain, nh)
-        (m, entries), = chain.items()
+        (m, entries), = pristine.items()
         session.append({"chain": {"m": m, "entries": entries_of(entries, lambda x: x)}, "obs": obs, "info": info, "dot": dot})
+        if len(session) % 3 == 1:
+            # the same dictionary object drawn once more: judged against what the dictionary said before the first drawing
+            obs2, dot2 = observe_graph(chain, nh)
+            session.append({"chain": {"m": m, "entries": entries_of(entries, lambda x: x)}, "obs": obs2,
+                            "info": info + ["(second viewer made from the same dictionary object)"] if isinstance(info, list)
+                            else info, "dot": dot2})
 
     for kind, payload in specs:
         if kind == "dec":
